@@ -256,6 +256,8 @@ def parse_type(ann, module: Module | None = None, extra_classes=()):
         if base in ("dict", "Dict"):
             k = parse_type(args[0], module, extra_classes)
             v = parse_type(args[1], module, extra_classes)
+            if isinstance(v, TDict):
+                v = sym.TBoxDict(v)  # a dict as a dict value: boxed (read-only mapping object)
             return TDict(k, v) if k is not None and v is not None else None
         if base in ("set", "Set"):
             k = parse_type(args[0], module, extra_classes)
